@@ -96,6 +96,27 @@ DoGet(s, p, pk) ==
       ELSE IF Len(res) = 0 THEN R(Tick(s), << >>)
       ELSE IF Len(res) = 1 THEN R([Tick(s) EXCEPT !.im = @ \cup Keys(res)], res)
       ELSE R(Tick(s), "MultipleResultsFound")
+\* Session.get(T, pk, identity_token = sh): the caller names the shard.  Only the identity key <<pk, sh>> may answer - the identity
+\* chooser is NOT consulted (horizontal_shard._identity_lookup: `if identity_token is not None: return super()._identity_lookup(...)`,
+\* a miss is a miss) - and only shard sh is queried (the token travels as load option _identity_token)
+EntryOf(s, k) == [pk |-> k[1], tok |-> k[2], g |-> RowOf(s, k).g]
+DoGetTok(s, pk, sh) ==
+   LET k == <<pk, sh>> IN
+   IF k \in s.im THEN R(s, <<EntryOf(s, k)>>)
+   ELSE IF HasRow(s, k) THEN R([s EXCEPT !.im = @ \cup {k}], <<EntryOf(s, k)>>)
+   ELSE R(s, << >>)
+\* Session.get(T, pk, bind_arguments = {"shard_id": sh}) / options = [set_shard_id(sh)]: the identity map pass is still the identity
+\* chooser's (it is handed the bind arguments; the table-driven chooser of the profile ignores them), only the SELECT goes to sh
+DoGetBind(s, p, pk, sh) ==
+   LET hits == {i \in 1..Len(p.ic[pk]) : <<pk, p.ic[pk][i]>> \in s.im}
+       k == <<pk, sh>>
+   IN IF hits # {} THEN LET i == CHOOSE x \in hits : \A y \in hits : x <= y IN R(s, <<EntryOf(s, <<pk, p.ic[pk][i]>>)>>)
+      ELSE IF HasRow(s, k) THEN R([s EXCEPT !.im = @ \cup {k}], <<EntryOf(s, k)>>)
+      ELSE R(s, << >>)
+\* Session.merge(d): d is a DETACHED copy (loaded by another session, identity key <<pk, sh>>) of a committed row, with val + 1.
+\* merge() looks its target up with get(identity_token = sh): the object of THAT shard (loaded now if necessary) takes the
+\* attribute values; the edit is an unflushed val + 1 of key <<pk, sh>> and of nothing else
+DoMerge(s, k) == R([s EXCEPT !.im = @ \cup {k}, !.dirty = @ \cup {k}], <<EntryOf(s, k)>>)
 \* ---------------------------------------------------------------- actions
 Step(a, arg1, arg2, res) == st' = res.st /\ last' = [a |-> a, x |-> arg1, y |-> arg2, ret |-> res.ret] /\ UNCHANGED P
 Can == TRUE
@@ -120,9 +141,16 @@ QueryAll == Can /\ Step("QueryAll", 0, 0, DoQuery(st, P, "all", 0))
 QueryGrp == \E g \in Grps : Can /\ Step("QueryGrp", g, 0, DoQuery(st, P, "grp", g))
 QueryShard == \E sh \in Shards : Can /\ Step("QueryShard", sh, 0, DoQuery(st, P, "shard", sh))
 Get == \E pk \in PKs : Can /\ Step("Get", pk, 0, DoGet(st, P, pk))
+GetTok == \E pk \in PKs, sh \in Shards : Can /\ Step("GetTok", pk, sh, DoGetTok(st, pk, sh))
+GetBind == \E pk \in PKs, sh \in Shards : Can /\ Step("GetBind", pk, sh, DoGetBind(st, P, pk, sh))
+\* a detached copy exists for rows that are committed and untouched by the open transaction
+Mergeable(k) == /\ HasRow(st, k) /\ RowOf(st, k) \in st.db[k[2]] /\ RowOf(st, k).v < MaxVal
+                /\ k \notin st.dirty /\ k \notin st.del /\ k \notin st.newk
+Merge == \E pk \in PKs, sh \in Shards : Can /\ Mergeable(<<pk, sh>>) /\ Step("Merge", pk, sh, DoMerge(st, <<pk, sh>>))
 Init == /\ P \in Seq2Set(Profiles)
         /\ st = InitSt(P) /\ last = [a |-> "init", x |-> 0, y |-> 0, ret |-> "ok"]
 Next == Add \/ Flush \/ Commit \/ Rollback \/ Expunge \/ Modify \/ Delete \/ QueryAll \/ QueryGrp \/ QueryShard \/ Get
+        \/ GetTok \/ GetBind \/ Merge
 Spec == Init /\ [][Next]_vars
 View == <<P, st>>
 \* what the binding compares after every step: rows per database file (committed: raw sqlite3; uncommitted: the session's own
@@ -157,7 +185,24 @@ QueryIsUnion ==
 \* "objects loaded from different shards with the same primary key stay distinct": an identity key carries the shard its row lives in
 KeysAreHome == \A k \in st.im : HasRow(st, k)
 \* Session.get consults the identity map in identity_chooser order before any database
-GetOrder == [][ last'.a = "Get" =>
+GetOrder == [][ last'.a \in {"Get", "GetBind"} =>
                  LET pk == last'.x  hit == {i \in 1..Len(P.ic[pk]) : <<pk, P.ic[pk][i]>> \in st.im} IN
                  hit # {} => (Len(last'.ret) = 1 /\ last'.ret[1].tok = P.ic[pk][CHOOSE i \in hit : \A j \in hit : i <= j] /\ st'.im = st.im) ]_vars
+\* an object addressed WITH its shard (get(identity_token=), merge() of a detached object) is the object of that shard, never a
+\* same-primary-key object of another one; nothing else enters the identity map or becomes dirty
+TokenHonoured == [][ last'.a \in {"GetTok", "Merge"} =>
+                      LET k == <<last'.x, last'.y>> IN
+                      /\ \A i \in 1..Len(last'.ret) : last'.ret[i].pk = k[1] /\ last'.ret[i].tok = k[2]
+                      /\ Len(last'.ret) = (IF HasRow(st, k) THEN 1 ELSE 0)
+                      /\ st'.im \subseteq st.im \cup {k}
+                      /\ st'.dirty = (IF last'.a = "Merge" THEN st.dirty \cup {k} ELSE st.dirty) ]_vars
+\* a flush writes every shard only on behalf of objects of that shard: rows that change or disappear in shard sh belong to dirty /
+\* deleted keys with token sh, rows that appear are the pending objects shard_chooser sends there (so a merged edit lands in the
+\* merged object's own shard and the same-primary-key row of another shard is untouched)
+FlushWritesHome ==
+   [][ last'.a \in {"Flush", "Commit"} =>
+         \A sh \in Shards :
+            /\ \A r \in st.work[sh] \ st'.work[sh] : <<r.pk, sh>> \in st.dirty \cup st.del
+            /\ \A r \in st'.work[sh] \ st.work[sh] : \/ <<r.pk, sh>> \in st.dirty
+                                                      \/ (<<r.pk, r.g>> \in st.pend /\ P.sc[r.g] = sh) ]_vars
 =============================================================================
